@@ -1058,6 +1058,10 @@ func (p *c20) runNamed(res *fw.Result, j int) {
 }
 
 func (p *c20) Rule() string {
+	return p.ruleBase() + " " + "Round 12: at every token boundary where '@' is rejected, 23 more characters that cannot begin a token ($ & ; \\ ^ ` ! # DEL BS ESC, section sign, euro, no-break space, 1/2, superscript 2, U+2028, U+200B, an emoji, acute accent, not sign, multiplication and division signs) must be rejected at the same position."
+}
+
+func (p *c20) ruleBase() string {
 	return fmt.Sprintf("four workloads. (a) positions: seeded templates in which every name, number, string and text run is unique, spelled with line breaks everywhere (LF, CRLF, blank lines inside tags; newlines and bytes that are not valid UTF-8 inside text; newlines inside strings, interpolated strings (before and after the interpolation), comments, verbatim bodies; trim markers; both quote kinds; a third of the templates start with a byte order mark, two of them, a NUL, a lone CR, NBSP or a zero-width space as ordinary text); every TextNode, PrintNode, tag node (if/elseif, for, set, block, filter, macro, embed and its blocks, include, import, from, use, do, extends), NameExpr, NumberExpr and StringExpr of the parsed tree must report the (1-based line, 0-based byte column) of its anchor as recorded by the speller (unique content is looked up directly, tag nodes must sit on an anchor of their kind; a string may report its quote or its first content byte; the name or index after a dot is located at its own first byte). (b) truncation: EVERY byte offset of every injection template and of generated templates: when a reference scanner says the cut is inside a delimiter pair or an open if/for/block/set/filter/macro/embed/verbatim body, parsing the prefix must fail. (c) injection: for each of the 41 tag/expression templates at 3 placements: an illegal character '@' at EVERY token boundary, a surplus literal before EVERY closing delimiter, a stray ')' or ']' at EVERY token boundary where no bracket is open, an unknown tag at EVERY statement position; the source must be rejected (for the stray bracket: if it is rejected) with the error located exactly at the injected token. (d) a broken template (%d kinds of error - every tag with a missing or wrong part, every kind of malformed expression -, 7 names incl. two of 290 bytes that differ only at the end) loaded directly and through include, extends, import, embed, use, from and a nested include in a loop: the error must identify the template by name. Non-trivial (positions) = an anchor on a line >1; the enumerated workloads are distinct by construction.", len(c20Broken))
 }
 
